@@ -117,6 +117,23 @@ func ProcChildMain() int {
 		b, _ := json.Marshal(res)
 		os.Stdout.Write(append(b, '\n'))
 	}
+	// Once the reference AMF has rejected a message the conversation is judged; the AMF may stop answering and the
+	// procedure under test would block in its next read. Report what was seen and end the child instead of waiting for
+	// the parent's watchdog.
+	var emitOnce sync.Once
+	go func() {
+		for {
+			time.Sleep(200 * time.Millisecond)
+			if amf.NViolations() > 0 {
+				time.Sleep(1500 * time.Millisecond) // let an immediate follow-up (the procedure's own exit) win
+				emitOnce.Do(func() {
+					res.Done = true
+					emit()
+					os.Exit(0)
+				})
+			}
+		}
+	}()
 	// stdout of the procedures (fmt.Println in the library) must not mix with the result: the result goes last on its own line
 	conn := sctp.NewSCTPConn(theirs, nil)
 	c := sp.Cfg
@@ -167,8 +184,10 @@ func ProcChildMain() int {
 	case <-time.After(2 * time.Second):
 	}
 	closeMine()
-	res.Done = true
-	emit()
+	emitOnce.Do(func() {
+		res.Done = true
+		emit()
+	})
 	return 0
 }
 
